@@ -37,6 +37,7 @@ def base_record(rng, lkind, dim, nout=1, ot="none", npar=2, nres=1):
                 w=dict(dyn=[1], ic=[1], norm=[1], bnd=[1], obs=[1]), inside=[], border=[],
                 ic=dict(on=False, t0=0, u0=[]), norm=dict(on=False, samples=[], L=1), bnd=[],
                 obsd=dict(on=False, **{"in": []}, val=[], slice=[1, nout], etab=[[] for _ in th]),
+                het=[[] for _ in th], hetmode="none", pshape="scalar",
                 bndform="global", gret="array", check=["sum", "dyn", "ic", "norm", "bnd", "obs"], src="tlc")
 
 
@@ -202,6 +203,11 @@ def expand_c04(st, seed):
             g = [[dict(c=0, e=[0] * nin)] if st["gzero"] else rpoly(rng, nin, 2, 1) + [dict(c=rng.choice([1, 2, 3]), e=[0] * nin)] for _ in range(ncomp)]
         bnd.append(dict(kind=kind, g=g, comp=cs))
     r["bnd"] = bnd
+    # per-facet dictionaries are keyed by facet name: the user may write the keys in any order
+    order = list(range(2 * dim))
+    if st["form"] == "dict" and rng.random() < 0.5:
+        rng.shuffle(order)
+    r["keyorder"] = order
     r["check"] = ["bnd", "sum", "dyn", "ic", "norm", "obs"]
     return r
 
@@ -260,7 +266,121 @@ def expand_c05(st, seed):
     return r
 
 
-EXPANDERS = dict(C03=expand_c03, C04=expand_c04, C05=expand_c05)
+def expand_c12(st, seed):
+    """every subset of batched keys of a 3-key parameter set; the network depends on k1, k2 (affine output transform), the
+    residual on all three; tagged (distinct) rows; optional heterogeneity maps; optional observed k3"""
+    rng = _rng(seed, st)
+    lk = st["lkind"]
+    dim = 0 if lk == "ode" else rng.choice([1, 2])
+    has_t = lk != "statio"
+    nin = dim + (1 if has_t else 0)
+    b = st["b"]
+    r = base_record(rng, lk, dim, nout=1, ot="affine" if st["ot"] else "none", npar=3, nres=2)
+    nv = nin + 1 + 3
+    def mon(c, **kw):
+        e = [0] * nv
+        for k, p in kw.items():
+            e[{"u": nin, "k1": nin + 1, "k2": nin + 2, "k3": nin + 3, "x0": 0}[k]] = p
+        return dict(c=c, e=e)
+    r["R"] = [[mon(1, u=1), mon(2, k1=1, x0=1), mon(-1, k3=1)], [mon(1, k2=1, u=1), mon(3, k3=1, x0=1), mon(1, k1=1)]]
+    set_inside(r, rng, b)
+    r["th"] = [2, -1, 3]
+    r["ptab"] = [[rng.choice([-2, 1, 3]) + 2 * i for i in range(b)] if (k + 1) in st["batched"] else [] for k in range(3)]
+    r["pshape"] = st["pshape"]
+    r["w"]["dyn"] = [1, 2]
+    if lk == "ode":
+        r["ic"] = dict(on=True, t0=1, u0=[2])
+    elif lk == "nonstatio":
+        r["ic"] = dict(on=True, t0=0, u0=[rpoly(rng, dim, 2, 1)])
+    if st["hetero"] != "none":
+        nh = nin + 3
+        def hm(c, **kw):
+            e = [0] * nh
+            for k, p in kw.items():
+                e[{"k1": nin, "k2": nin + 1, "k3": nin + 2, "x0": 0}[k]] = p
+            return dict(c=c, e=e)
+        if st["hetero"] == "k1":
+            r["het"] = [[hm(1, k1=1, x0=1), hm(1, k2=1)], [], []]      # k1 -> k1 * x0 + k2 ; k2, k3 missing from the dict
+            r["hetmode"] = "missing"
+        else:
+            r["het"] = [[], [], [hm(2, k3=1, x0=1), hm(1, k1=1)]]        # k3 -> 2 k3 x0 + k1 ; others declared None
+            r["hetmode"] = "none_entries"
+    if st["obsk"]:
+        rows = [rpoint(rng, nin, has_t) for _ in range(b)]
+        r["obsd"] = dict(on=True, **{"in": rows}, val=[[rng.randint(-3, 3)] for _ in range(b)], slice=[1, 1],
+                         etab=[[], [], [5 + i for i in range(b)]] if not st["ot"] else [[rng.choice([1, 2]) + i for i in range(b)], [], []])
+    r["check"] = ["sum", "dyn", "ic", "norm", "bnd", "obs"]
+    return r
+
+
+def expand_c13(st, seed):
+    rng = _rng(seed, st)
+    lk = st["lkind"]
+    dim = 0 if lk == "ode" else rng.choice([1, 2])
+    has_t = lk != "statio"
+    nin = dim + (1 if has_t else 0)
+    nunk, neq = st["nunk"], st["neq"]
+    unames = ["ua", "ub", "uc"][:nunk]
+    if st["naming"] == "same":
+        enames = list(unames)
+    elif st["naming"] == "different":
+        enames = ["e1", "e2", "e3"][:neq]
+    else:
+        enames = (unames + ["e1", "e2", "e3"])[:neq] if neq <= nunk else (unames[:1] + ["e1", "e2"])[:neq]
+    th = [2, -1]
+    nv = nin + nunk + 2
+    b = 2
+    r = dict(kind="sysloss", lkind=lk, dim=dim, th=th, ptab=[[], []], inside=[], border=[], nets=[], eqs=[], wu=[],
+             wform=st["wform"], src="tlc", exc="")
+    tmp = dict(lkind=lk, dim=dim)
+    set_inside(tmp, rng, b)
+    r["inside"] = tmp["inside"]
+    if st["bnd"]:
+        set_border(tmp, rng, 2, 1)
+        r["border"] = tmp["border"]
+    if st["pbatch"]:
+        r["ptab"] = [[3, 5][:b], []]
+    for k, name in enumerate(unames):
+        V = rpoly(rng, nin, 2, 2, must=k % nin) + [dict(c=k + 1, e=[0] * nin)]
+        ic_on = st["icpat"] == "all" or (st["icpat"] == "first" and k == 0)
+        if lk == "ode":
+            ic = dict(on=ic_on, t0=1, u0=[rng.randint(-2, 3)])
+        else:
+            ic = dict(on=ic_on, t0=0, u0=[rpoly(rng, dim, 2, 1)] if dim else [])
+        obs_on = st["obspat"] == "all" or (st["obspat"] == "first" and k == 0)
+        obsd = dict(on=obs_on, **{"in": [rpoint(rng, nin, has_t) for _ in range(b)] if obs_on else []},
+                    val=[[rng.randint(-3, 3)] for _ in range(b)] if obs_on else [], slice=[1, 1], etab=[[], []])
+        bnd = []
+        if st["bnd"]:
+            kind = ["dirichlet", "none", "neumann"][k % 3] if lk != "ode" else "none"
+            g = [rpoly(rng, nin, 1, 1) + [dict(c=1, e=[0] * nin)]]
+            bnd = [dict(kind=kind, g=g, comp=[1, 1]) for _ in range(2 * dim)]
+        r["nets"].append(dict(name=name, V=V, ic=ic, obsd=obsd, bnd=bnd))
+        r["wu"].append(dict(ic=2 + k, norm=1, bnd=3 + k, obs=1 + 2 * k) if st["wform"] == "dict" else dict(ic=2, norm=1, bnd=3, obs=5))
+    for e, name in enumerate(enames):
+        # asymmetric in t and x, involving every unknown and a parameter
+        R = []
+        for u in range(nunk):
+            ee = [0] * nv
+            ee[nin + u] = 1
+            R.append(dict(c=u + 1 + e, e=ee))
+        ee = [0] * nv
+        ee[0] = 1 + (e % 2)
+        R.append(dict(c=2 - e, e=ee))
+        if nin > 1:
+            ee = [0] * nv
+            ee[1] = 1
+            ee[nv - 2] = 1
+            R.append(dict(c=3, e=ee))
+        else:
+            ee = [0] * nv
+            ee[nv - 2] = 1
+            R.append(dict(c=3, e=ee))
+        r["eqs"].append(dict(name=name, R=R, w=(2 + e) if st["wform"] == "dict" else 4))
+    return r
+
+
+EXPANDERS = dict(C03=expand_c03, C04=expand_c04, C05=expand_c05, C12=expand_c12, C13=expand_c13)
 
 
 def expand(struct, seed):
